@@ -790,3 +790,132 @@ func TestVerifC05KFStorageReadSkipsDisabledShard(t *testing.T) {
 		stats.KnownReproduced("storage-read-skips-unavailable-shards", fmt.Sprintf("a storage read over 24 points returned %d points and no error while one node's shards were disabled", strings.Count(r1.String(), "\n  [")))
 	}
 }
+
+// TestVerifC05TruncatedGroups: metadata layouts produced by truncate-shards (the first step of a rebalance or of
+// copy-shard): a truncated shard group keeps the points that were written into it before the truncation, also
+// those stamped at or after the truncation time; queries over any range must still read them.
+func TestVerifC05TruncatedGroups(t *testing.T) {
+	stats := verifkit.For("C05", "TestVerifC05TruncatedGroups",
+		"bed K: a fresh database with hourly shard groups around the current hour and RF 1..3 is loaded with uniquely tagged points from 2 h in the past to 3 h in the future; the groups are truncated through the meta node's /truncate-shards with a drawn delay (so that groups already holding points after the truncation time get a successor), more points are written after the truncation time, and count/raw statements with a lower (or no) time bound at the truncation time, just around it, and at group starts are run on every node, fault-free. Oracle: the result equals what was written. non-trivial = a truncated group holds a point at or after its truncation time; distinct = (rf, delay, bound)")
+	defer stats.Flush()
+	cl, err := vkSharedCluster()
+	if err != nil {
+		vkSetupFailed(t, "cluster: %v", err)
+	}
+	rapid.Check(t, func(rt *rapid.T) {
+		vkCaseSeq++
+		db := fmt.Sprintf("c05t_%d_%d", os.Getpid(), vkCaseSeq)
+		rf := rapid.IntRange(1, 3).Draw(rt, "rf")
+		if err := cl.createDB(db, rf, time.Hour); err != nil {
+			vkSetupFailed(rt, "createDB: %v", err)
+		}
+		defer cl.dropDB(db)
+		now := time.Now()
+		base := now.Truncate(time.Hour).Unix()
+		var times []int64
+		var pts []models.Point
+		add := func(ts int64) {
+			times = append(times, ts)
+			pts = append(pts, models.MustNewPoint("m", models.NewTags(map[string]string{"h": fmt.Sprintf("p%d", len(times))}), models.Fields{"v": float64(len(times))}, time.Unix(ts, 0)))
+		}
+		n1 := rapid.IntRange(3, 14).Draw(rt, "pointsBefore")
+		for i := 0; i < n1; i++ {
+			add(base + int64(rapid.IntRange(-7200, 3*3600+1800).Draw(rt, "offset")))
+		}
+		if err := cl.writeAllUp(rapid.IntRange(0, 2).Draw(rt, "writeNode"), db, pts); err != nil {
+			vkSetupFailed(rt, "write: %v", err)
+		}
+		delay := time.Duration(rapid.SampledFrom([]int{1, 60, 900, 3600, 2 * 3600}).Draw(rt, "delaySeconds")) * time.Second
+		resp, err := http.PostForm("http://"+cl.metaAddr+"/truncate-shards", url.Values{"delay": {delay.String()}})
+		if err != nil {
+			vkSetupFailed(rt, "POST /truncate-shards: %v", err)
+		}
+		body, _ := io.ReadAll(resp.Body)
+		resp.Body.Close()
+		if resp.StatusCode/100 != 2 {
+			vkSetupFailed(rt, "truncate-shards: %s %s", resp.Status, body)
+		}
+		if err := cl.syncMeta(); err != nil {
+			vkSetupFailed(rt, "%v", err)
+		}
+		// where did the truncation land?
+		var truncs []int64
+		heldAfter := false
+		if rpi, err := cl.nodes[0].srv.MetaClient.RetentionPolicy(db, "rp"); err == nil && rpi != nil {
+			for _, sg := range rpi.ShardGroups {
+				if sg.Truncated() {
+					tr := sg.TruncatedAt.Unix()
+					truncs = append(truncs, tr)
+					for _, ts := range times {
+						if ts >= tr && ts >= sg.StartTime.Unix() && ts < sg.EndTime.Unix() {
+							heldAfter = true
+						}
+					}
+				}
+			}
+		}
+		// more points after the truncation
+		var pts2 []models.Point
+		n2 := rapid.IntRange(0, 6).Draw(rt, "pointsAfter")
+		for i := 0; i < n2; i++ {
+			ts := base + int64(rapid.IntRange(0, 3*3600+1800).Draw(rt, "offset2"))
+			times = append(times, ts)
+			pts2 = append(pts2, models.MustNewPoint("m", models.NewTags(map[string]string{"h": fmt.Sprintf("q%d", len(times))}), models.Fields{"v": float64(len(times))}, time.Unix(ts, 0)))
+		}
+		if len(pts2) > 0 {
+			if err := cl.writeAllUp(rapid.IntRange(0, 2).Draw(rt, "writeNode2"), db, pts2); err != nil {
+				vkSetupFailed(rt, "write after truncation: %v", err)
+			}
+		}
+		if err := cl.syncMeta(); err != nil {
+			vkSetupFailed(rt, "%v", err)
+		}
+		// bounds
+		bounds := []int64{0, base, base + 3600, base + 7200}
+		for _, tr := range truncs {
+			bounds = append(bounds, tr-1, tr, tr+1)
+		}
+		lo := rapid.SampledFrom(bounds).Draw(rt, "lowerBound")
+		want := 0
+		for _, ts := range times {
+			if lo == 0 || ts >= lo {
+				want++
+			}
+		}
+		cond := ""
+		if lo != 0 {
+			cond = fmt.Sprintf(" WHERE time >= %ds", lo)
+		}
+		for ni := range cl.nodes {
+			for _, q := range []string{"SELECT count(v) FROM m" + cond, "SELECT v FROM m" + cond} {
+				r := cl.query(ni, db, q)
+				for try := 0; try < 3 && r.Err != "" && (strings.Contains(r.Err, "timeout") || strings.Contains(r.Err, "deadline")); try++ {
+					time.Sleep(500 * time.Millisecond)
+					r = cl.query(ni, db, q)
+				}
+				if r.Err != "" {
+					rt.Fatalf("%s fault-free %q on node %d failed: %s", verifkit.Sig("fault-free-query-error"), q, ni, r.Err)
+				}
+				msg := ""
+				if strings.HasPrefix(q, "SELECT count") {
+					if want == 0 {
+						msg = vkWantSeries(r, 0)
+					} else {
+						msg = vkWantContains(r, fmt.Sprintf(" %d]", want))
+					}
+				} else {
+					msg = vkWantRows(r, want)
+				}
+				if msg != "" {
+					rt.Fatalf("%s fault-free %q on node %d after truncate-shards (delay %v, truncation times %v, rf=%d, %d points written of which %d at or after the bound) is wrong: %s\n%s", verifkit.Sig("fault-free-result-wrong"), q, ni, delay, truncs, rf, len(times), want, msg, r)
+				}
+			}
+		}
+		stats.Case(heldAfter, fmt.Sprint(rf, delay, lo != 0), fmt.Sprintf("rf:%d", rf), fmt.Sprintf("truncatedGroups:%d", len(truncs)), fmt.Sprintf("groupHoldsPointAfterTruncation:%v", heldAfter))
+		if stats.WantSample() {
+			stats.Sample(map[string]interface{}{"rf": rf, "delay": delay.String(), "points": len(times), "truncated_groups": len(truncs), "lower_bound": lo, "expected": want})
+		} else {
+			stats.Sample(nil)
+		}
+	})
+}
